@@ -347,6 +347,13 @@ def run(ctx):
     r6.floor(8)
     job_descriptors(ctx, r6)
 
+    # ---- R9 "only if committed" rests on the transaction demarcation ---------------------
+    r9 = ctx.rule('R9', 'a job row written inside transaction() is '
+                  'committed exactly when the body returned normally, and '
+                  'rolled back with it otherwise', 'GD/PAIR')
+    from mstatic.rules import txqueue
+    txqueue.transaction_shape(ctx, r9)
+
     # ---- R8 guarded-by -----------------------------------------------------------------------
     r8 = ctx.rule('R8', 'in-memory job structures are accessed only under '
                   'the scheduler condition lock', 'lock discipline')
